@@ -42,6 +42,24 @@ def ownB : BVar → Bool
 /-- … and the variables of the declared indicators (each defined by one equation over the variables above) -/
 def State.ownI2 (st : State) (v : IVar) : Bool := st.ownI v || st.indicators.any (fun ind => ind.var == v)
 
+/-- the smallest duration the declaration of a task allows -/
+def Task.minDur (t : Task) : Int :=
+  match t.kind with
+  | .fixed d => d
+  | .zero => 0
+  | .var mn _ _ => mn
+
+/-- the declared delays fit the tasks: they leave a non-negative busy span whatever the duration, and optional tasks
+    have none (the busy interval of an unscheduled task would otherwise be inverted) -/
+def State.fitsB (st : State) : Bool :=
+  st.tasks.all (fun t => decide (0 ≤ t.minDur) && (st.reqsOf t.name).all (fun r =>
+    decide (max 0 r.delayIn + max 0 r.earlyOut ≤ t.minDur) &&
+    (!t.optional || (decide (r.delayIn ≤ 0) && decide (r.earlyOut ≤ 0)))))
+
+/-- a busy interval the problem owns -/
+def State.ownsBusy (st : State) (b : BusyRef) : Bool :=
+  st.ownI (.busyS b.worker b.task b.maybe) && st.ownI (.busyE b.worker b.task b.maybe)
+
 /-- a formula over the problem's own variables only (no auxiliary variable, no uninterpreted symbol) -/
 def State.plainF (st : State) (f : Fml) : Bool := f.plainIn st.ownI2 ownB
 
@@ -55,6 +73,15 @@ def CBody.inCoreS (st : State) (id : Nat) : CBody → Bool
   | .unavailable busy _ =>
       busy.all (fun b => st.ownI (.busyS b.worker b.task b.maybe) && st.ownI (.busyE b.worker b.task b.maybe))
   | .indicatorTarget v _ | .indicatorBounds v _ _ => st.indicators.any (fun ind => ind.var == v)
+  -- the interruption classes: well-formed windows, owned busy intervals of declared tasks, delays that fit
+  | .interrupted ws ivs =>
+      ivs.all (fun iv => decide (iv.1 < iv.2)) && st.fitsB &&
+      ws.all (fun w => w.all (fun bt => st.ownsBusy bt.1 && st.findTask bt.2.name == some bt.2))
+  | .periodicallyUnavailable busy ivs _ _ _ _ =>
+      ivs.all (fun iv => decide (iv.1 < iv.2)) && st.fitsB && busy.all st.ownsBusy
+  | .periodicallyInterrupted busy ivs period _ _ _ =>
+      decide (0 < period) && ivs.all (fun iv => decide (0 ≤ iv.1) && decide (iv.1 < iv.2) && decide (iv.2 ≤ period)) &&
+      st.fitsB && busy.all (fun bt => st.ownsBusy bt.1 && st.findTask bt.2.name == some bt.2)
   | b => b.isConn && (b.raw id).all st.plainF
 
 /-- the conditions of `InCoreS.of_reachable`, as a Boolean -/
@@ -144,5 +171,31 @@ def State.dropTaskTheoremB (full without : State) (n : String) : Bool :=
   -- `n` required no selection, and the constraints naming it are of the guarded classes
   (full.eventsOf n).all (fun ev => match ev with | .direct _ _ => true | .viaSelect _ _ _ _ => false) &&
   full.constrs.all (fun c => c.operand || !(c.body.coreTasks.any (fun t => t.name == n)) || c.body.isGuardedB)
+
+
+/-! ### several objectives, executable (hypotheses of `C05_feasible_iff_multi` / `C07_weighted_attainable`) -/
+
+def eqvVar : IVar := .named "EquivalentSingleObjective"
+def eqvInd : IVar := .ind "EquivalentIndicator"
+
+/-- every variable but the two of the weighted combination -/
+def notEquiv (v : IVar) : Bool := !(v == eqvVar) && !(v == eqvInd)
+
+/-- a configuration under which `initialize` adds nothing for the objectives (the built-in optimiser in Pareto mode) -/
+def cfgP : Config := { optimize := true }
+
+def weightedTerms (st : State) : List Term := st.objectives.map (fun o => Term.mul (numT o.weight) o.target)
+
+/-- no assertion of the problem and no objective target mentions the two variables of the weighted combination -/
+def State.freshEquiv (st : State) : Bool :=
+  (initFmls cfgP st).all (fun a => a.varsIn notEquiv) && st.objectives.all (fun o => o.target.varsIn notEquiv)
+
+
+def State.noObj (st : State) : State := { st with objectives := [] }
+
+/-- the problem without its objectives is in the fragment, nothing mentions the two variables of the weighted
+    combination, and every objective targets an own variable -/
+def State.fragmentMultiB (st : State) : Bool :=
+  st.noObj.fragmentB && st.freshEquiv && st.objectives.all (fun o => o.target.plainIn st.noObj.ownI2 ownB)
 
 end PS
